@@ -262,7 +262,10 @@ fn capabilities_detect(term: &mut UnixTerminal) -> Result<(), Error> {
     }
 
     // drain all pending events
-    term.drain().count();
+    //
+    // NOTE: `Terminal::drain` can not be used here as it swallows errors, and
+    //       termination signal received during detection would be lost.
+    while term.poll(Some(Duration::new(0, 0)))?.is_some() {}
     // NOTE: using `write!` here instead of execute, to not accidentally use
     //       existing configuration from passed terminal.
 
@@ -335,7 +338,7 @@ fn capabilities_detect(term: &mut UnixTerminal) -> Result<(), Error> {
     }
 
     // drain terminal
-    term.drain().count();
+    while term.poll(Some(Duration::new(0, 0)))?.is_some() {}
 
     // color depth
     if let Some(depth) = env_cfg::<ColorDepth>("depth") {
